@@ -146,6 +146,14 @@ func genC14(cw *caseWriter, seed uint64, tier string) {
 				}
 			}
 		}
+		// an UNDECLARED member whose name differs from the column's by case only, before or after it, holding another
+		// instant: it is another member — the column keeps its own value, offset included
+		for _, txt := range colTexts[:12] {
+			for _, co := range outs[:5] {
+				emitLine(cw, "C14", []colDesc{ins[0]}, []colDesc{co}, []byte(`{"c":"`+txt+`","C":1500000000}`), true)
+				emitLine(cw, "C14", []colDesc{ins[0]}, []colDesc{co}, []byte(`{"C":"2017-07-14T02:40:00Z","c":"`+txt+`"}`), true)
+			}
+		}
 		// a date-time member that comes twice in one line: the second occurrence — whose explicit offset is the
 		// process zone's own at that instant, or not — is what the column holds afterwards, offset included
 		for _, first := range []string{"2020-01-01T00:00:00+05:00", "2020-06-01T00:00:00-09:30", "2020-01-01T00:00:00Z"} {
